@@ -423,6 +423,93 @@ func c07ScaleScenarios(full bool) []cwScenario {
 	return out
 }
 
+// c07SendParked: a SendMsg of the caller is parked in the transport (client-side back-pressure) when the cancellation
+// (or the deadline) lands; then the back-pressure ends. The SendMsg returns the context's error (never EOF: no terminal
+// envelope was delivered), later operations report the status, exactly one reset, the handler's context ends. Client.v's
+// Writes are atomic: mode e2efree (predicates only).
+func c07SendParked(kind string, deadline bool, other int, ctxk string) cwScenario {
+	var steps []Step
+	c := 0
+	switch other {
+	case 1:
+		steps = append(steps, Step{Op: "open", Kind: "Bidi"}, Step{Op: "c2s"}, Step{Op: "send", C: 0, B: 90}, Step{Op: "c2s"},
+			hop(0, HOp{Op: "recv"}), hop(0, HOp{Op: "send", B: 91}), Step{Op: "s2c"}, Step{Op: "recv", C: 0})
+		c = 1
+	case 2:
+		steps = append(steps, Step{Op: "unary", B: 95, Gate: true}, Step{Op: "c2s"})
+		c = 1
+	}
+	open := Step{Op: "open", Kind: kind, Ctx: ctxk}
+	cu := Step{Op: "cancelunblock", C: c}
+	if deadline {
+		open.D = 5000
+		cu.D = 5000
+	}
+	steps = append(steps, open, Step{Op: "c2s"}, Step{Op: "send", C: c, B: 10}, Step{Op: "c2s"}, hop(c, HOp{Op: "recv"}),
+		Step{Op: "cblock", B: 1}, Step{Op: "send", C: c, B: 11}, cu, Step{Op: "drain"},
+		Step{Op: "recv", C: c}, Step{Op: "send", C: c, B: 40}, Step{Op: "closesend", C: c}, Step{Op: "drain"},
+		hop(c, HOp{Op: "await"}), hop(c, HOp{Op: "return", Ctx: true}), Step{Op: "drain"})
+	switch other {
+	case 1:
+		steps = append(steps, Step{Op: "send", C: 0, B: 92}, Step{Op: "c2s"}, hop(0, HOp{Op: "recv"}), hop(0, HOp{Op: "send", B: 93}),
+			Step{Op: "s2c"}, Step{Op: "recv", C: 0}, Step{Op: "closesend", C: 0}, Step{Op: "c2s"}, hop(0, HOp{Op: "recv"}),
+			hop(0, HOp{Op: "return"}), Step{Op: "s2c"}, Step{Op: "recv", C: 0})
+	case 2:
+		steps = append(steps, Step{Op: "hu", B: 95}, Step{Op: "drain"})
+	}
+	how := "cancel"
+	if deadline {
+		how = "deadline"
+	}
+	return cwScenario{Mode: "e2efree", Steps: steps, Tags: []string{"c07", "kind:" + kind, "caller:parked-in-send-under-backpressure", "how:" + how,
+		fmt.Sprintf("other:%d", other), "ctx:" + ctxk}}
+}
+
+func c07SendParkedScenarios() []cwScenario {
+	var out []cwScenario
+	for ki, kind := range []string{"Bidi", "CStream"} {
+		for dl := 0; dl < 2; dl++ {
+			for other := 0; other <= 2; other++ {
+				out = append(out, c07SendParked(kind, dl == 1, other, ctxKindFor(dl == 1, ki+dl+other)))
+			}
+		}
+	}
+	return out
+}
+
+// c07ScaleBlocked: n concurrent streams, all cancelled back to back (as under one cancelled parent) while the client's
+// transport takes no Write; then the back-pressure ends: EVERY cancelled stream's reset reaches the wire, every handler's
+// context ends. n around the sizes a reset queue might have (16: 17, 18, 24, 33).
+func c07ScaleBlocked(n int, blocked bool) cwScenario {
+	var s []Step
+	kinds := []string{"Bidi", "CStream", "SStream"}
+	for i := 0; i < n; i++ {
+		s = append(s, Step{Op: "open", Kind: kinds[i%3], Ctx: ctxKindFor(false, i)}, Step{Op: "c2s"})
+	}
+	for i := 0; i < n; i++ {
+		s = append(s, hop(i, HOp{Op: "await"}))
+	}
+	ca := Step{Op: "cancelall"}
+	if blocked {
+		ca.B = 1
+	}
+	s = append(s, ca, Step{Op: "drain"})
+	for i := 0; i < n; i++ {
+		s = append(s, hop(i, HOp{Op: "return", Ctx: true}))
+	}
+	s = append(s, Step{Op: "drain"})
+	return cwScenario{Mode: "e2efree", Steps: s, Tags: []string{"c07", "family:scale", fmt.Sprintf("streams:%d", n), "cancel:all-at-once",
+		fmt.Sprintf("client-writes-blocked:%v", blocked)}}
+}
+
+func c07ScaleBlockedScenarios(full bool) []cwScenario {
+	out := []cwScenario{c07ScaleBlocked(17, true), c07ScaleBlocked(18, true), c07ScaleBlocked(24, true), c07ScaleBlocked(33, true), c07ScaleBlocked(33, false)}
+	if full {
+		out = append(out, c07ScaleBlocked(9, true), c07ScaleBlocked(65, true), c07ScaleBlocked(101, true), c07ScaleBlocked(129, true), c07ScaleBlocked(101, false))
+	}
+	return out
+}
+
 func c07OpenCancelScenarios() []cwScenario {
 	var out []cwScenario
 	for _, kind := range []string{"Bidi", "CStream", "SStream"} {
@@ -661,6 +748,34 @@ func c11BodyBlocked(kind string, how string, unread, parked int, others int, pro
 		fmt.Sprintf("unread:%d", unread), fmt.Sprintf("parked-sends:%d", parked), fmt.Sprintf("others:%d", others), fmt.Sprintf("probe-deadline:%v", probeDl)}}
 }
 
+// the client's HALF-CLOSE is the envelope that waits in the server's forwarding select (the stream's one-slot queue is
+// occupied by an unread message) when the handler returns: n messages and CloseSend are all delivered, the handler has
+// read k of them (k = n-1: the half-close is the parked envelope; k < n-1: a message is, the half-close behind it) and
+// returns. Then a probe unary call and a NEW stream.
+func c11HalfCloseParked(kind string, n, k, others int, probeDl bool, retCode int) cwScenario {
+	pre, post, c := c11Others(others)
+	s := append([]Step{}, pre...)
+	s = append(s, Step{Op: "open", Kind: kind}, Step{Op: "c2s"})
+	for i := 0; i < n; i++ {
+		s = append(s, Step{Op: "send", C: c, B: int64((10 + i) * ((i + n) % 2))})
+	}
+	s = append(s, Step{Op: "closesend", C: c})
+	for i := 0; i < k; i++ {
+		s = append(s, Step{Op: "c2s"}, hop(c, HOp{Op: "recv"}))
+	}
+	s = append(s, Step{Op: "drain"}, hop(c, HOp{Op: "return", Code: retCode, Msg: 7}), Step{Op: "drain"},
+		Step{Op: "recv", C: c}, Step{Op: "recv", C: c})
+	s = append(s, probeSteps(probeDl)...)
+	s = append(s, post...)
+	// a new stream on the same connection
+	nc := c + 2
+	s = append(s, Step{Op: "open", Kind: "Bidi"}, Step{Op: "c2s"}, Step{Op: "send", C: nc, B: 60}, Step{Op: "c2s"}, hop(nc, HOp{Op: "recv"}),
+		hop(nc, HOp{Op: "send", B: 61}), Step{Op: "s2c"}, Step{Op: "recv", C: nc}, Step{Op: "closesend", C: nc}, Step{Op: "c2s"},
+		hop(nc, HOp{Op: "recv"}), hop(nc, HOp{Op: "return"}), Step{Op: "s2c"}, Step{Op: "recv", C: nc})
+	return cwScenario{Mode: "e2e", Steps: s, Tags: []string{"c11", "abandon:handler", "half-close:delivered-before-return", "kind:" + kind,
+		fmt.Sprintf("n:%d", n), fmt.Sprintf("k:%d", k), fmt.Sprintf("others:%d", others), fmt.Sprintf("probe-deadline:%v", probeDl)}}
+}
+
 // a peer that sends more than expected (client against a scripted peer)
 func c11OverSending(shape string, d int, probeDl bool) cwScenario {
 	var s []Step
@@ -830,6 +945,19 @@ func c11Scenarios(full bool) []cwScenario {
 						continue
 					}
 					out = append(out, c11TrailerBlocked(kind, how, ex, others, (ki+others+ex)%4 == 0))
+				}
+			}
+		}
+	}
+	// the half-close delivered (parked in the forwarding select or behind the parked message) before the handler returns
+	for ki, kind := range []string{"CStream", "Bidi"} {
+		for n := 1; n <= N-1; n++ {
+			for k := 0; k < n; k++ {
+				for others := 0; others <= 2; others++ {
+					if !full && (ki+n+k+others)%2 == 1 && k != n-1 {
+						continue
+					}
+					out = append(out, c11HalfCloseParked(kind, n, k, others, (n+k+others)%3 == 0, 5*((n+k)%2)))
 				}
 			}
 		}
@@ -1038,6 +1166,53 @@ func c06ReturnWindow() []cwScenario {
 					out = append(out, cwScenario{Mode: "e2e", Steps: s, Tags: []string{"c06", "family:return-window", "kind:" + kind,
 						"hold:" + hold, fmt.Sprintf("late:%d", late), fmt.Sprintf("exchanged:%d", ex)}})
 				}
+			}
+		}
+	}
+	return out
+}
+
+// streaming calls to a method / a service the server has not registered (a client built against a newer version of the
+// service): opener, 0..2 messages, half-close / reset on the wire before the client has seen the answer to its opener;
+// scripted client and the real client; then a probe. The id gets at most one trailer and nothing but resets after it.
+func c06UnknownMethod() []cwScenario {
+	var out []cwScenario
+	for _, m := range []string{"/verif.Echo/Missing", "/verif.Nobody/Bidi", "/verif.Echo/"} {
+		for bodies := 0; bodies <= 2; bodies++ {
+			for _, end := range []string{"close", "reset", "none", "close-body"} {
+				s := []Step{{Op: "cli", M: m, Env: &EnvSpec{Call: 0, Hdr: "ok:0", Trl: "none"}}}
+				for i := 0; i < bodies; i++ {
+					s = append(s, Step{Op: "cli", M: m, Env: bodyEnv(0, int64(10*i))})
+				}
+				switch end {
+				case "close":
+					s = append(s, Step{Op: "cli", M: m, Env: trlEnv(0, 0)})
+				case "reset":
+					s = append(s, Step{Op: "cli", M: m, Env: &EnvSpec{Call: 0, Hdr: "ok:0", Trl: "none", Rst: true}})
+				case "close-body":
+					s = append(s, Step{Op: "cli", M: m, Env: trlEnv(0, 0)}, Step{Op: "cli", M: m, Env: bodyEnv(0, 33)})
+				}
+				s = append(s, Step{Op: "cli", M: "/verif.Echo/Unary", Env: &EnvSpec{Call: 1, Hdr: "ok:0", Body: i64(77), Trl: "none"}})
+				out = append(out, cwScenario{Mode: "server", Steps: s, Tags: []string{"c06", "family:unknown-method", "method:" + m,
+					fmt.Sprintf("bodies:%d", bodies), "end:" + end}})
+			}
+		}
+	}
+	for _, kind := range []string{"Missing", "NoService"} {
+		for bodies := 0; bodies <= 2; bodies++ {
+			for _, eager := range []bool{false, true} {
+				// eager: everything is on the wire before the server's answer to the opener reaches the client
+				s := []Step{{Op: "open", Kind: kind}}
+				if !eager {
+					s = append(s, Step{Op: "c2s"})
+				}
+				for i := 0; i < bodies; i++ {
+					s = append(s, Step{Op: "send", C: 0, B: int64(10 * i)})
+				}
+				s = append(s, Step{Op: "closesend", C: 0}, Step{Op: "drain"}, Step{Op: "recv", C: 0}, Step{Op: "recv", C: 0})
+				s = append(s, probeSteps(false)...)
+				out = append(out, cwScenario{Mode: "e2e", Steps: s, Tags: []string{"c06", "family:unknown-method", "kind:" + kind,
+					fmt.Sprintf("bodies:%d", bodies), fmt.Sprintf("eager:%v", eager)}})
 			}
 		}
 	}
